@@ -60,6 +60,67 @@ def perturbations(g, rng, ir, choose=None):
     if ir.aux_data:
         P.append(("ir.aux-key-removed", lambda: ir.aux_data.pop(next(iter(ir.aux_data)))))
     P.append(("ir.module-added", lambda: ir.modules.append(g.Module(name="extra"))))
+    # the same kinds of change with values at the EDGE of each field's domain (the only difference is an empty string, a zero,
+    # the zero-valued enum member, an empty container): a comparison that looks at truthiness instead of equality misses exactly these
+    P.append(("ir.aux-key-empty-string-added", lambda: (False if "" in ir.aux_data else ir.aux_data.__setitem__("", g.AuxData(0, "uint8_t")))))
+    P.append(("ir.version->0", setattr_(ir, "version", 0)))
+    P.append(("ir.module-added-all-defaults", lambda: ir.modules.append(g.Module(name=""))))
+    m = pick(mods)
+    if m is not None:
+        P.append(("module.aux-key-empty-string-added", lambda: (False if "" in m.aux_data else m.aux_data.__setitem__("", g.AuxData(0, "uint8_t")))))
+        P.append(("module.name->empty", setattr_(m, "name", "")))
+        P.append(("module.binary_path->empty", setattr_(m, "binary_path", "")))
+        P.append(("module.preferred_addr->0", setattr_(m, "preferred_addr", 0)))
+        P.append(("module.rebase_delta->0", setattr_(m, "rebase_delta", 0)))
+        P.append(("module.isa->zero-member", setattr_(m, "isa", g.Module.ISA(0))))
+        P.append(("module.file_format->zero-member", setattr_(m, "file_format", g.Module.FileFormat(0))))
+        P.append(("module.byte_order->zero-member", setattr_(m, "byte_order", g.Module.ByteOrder(0))))
+        P.append(("module.section-added-all-defaults", lambda: m.sections.add(g.Section(name=""))))
+        P.append(("module.symbol-added-all-defaults", lambda: m.symbols.add(g.Symbol(""))))
+    s0 = pick(secs)
+    if s0 is not None:
+        P.append(("section.name->empty", setattr_(s0, "name", "")))
+        if s0.flags:
+            P.append(("section.flags->empty", lambda: s0.flags.clear()))
+        if g.Section.Flag(0) not in s0.flags:
+            P.append(("section.zero-flag-added", lambda: s0.flags.add(g.Section.Flag(0))))
+        P.append(("section.interval-added-all-defaults", lambda: s0.byte_intervals.add(g.ByteInterval())))
+    b0 = pick(blocks)
+    if b0 is not None:
+        P.append(("block.size->0", setattr_(b0, "size", 0)))
+        P.append(("block.offset->0", setattr_(b0, "offset", 0)))
+        if isinstance(b0, g.CodeBlock):
+            P.append(("block.decode_mode->zero-member", setattr_(b0, "decode_mode", g.CodeBlock.DecodeMode(0))))
+    bi0 = pick(bis)
+    if bi0 is not None:
+        P.append(("interval.address->0", setattr_(bi0, "address", 0)))
+        P.append(("interval.address->none", setattr_(bi0, "address", None)))
+        P.append(("interval.block-added-all-defaults", lambda: bi0.blocks.add(g.DataBlock())))
+        if len(bi0.contents):
+            P.append(("interval.contents->empty", lambda: setattr(bi0, "initialized_size", 0)))
+
+            def zero_byte():
+                if bi0.contents[0] == 0:
+                    return False
+                bi0.contents[0] = 0
+            P.append(("interval.contents-byte->0", zero_byte))
+    y0 = pick(syms)
+    if y0 is not None:
+        P.append(("symbol.name->empty", setattr_(y0, "name", "")))
+        P.append(("symbol.at_end->false", setattr_(y0, "at_end", False)))
+    xk0 = pick(exprs)
+    if xk0 is not None:
+        e0 = xk0[0].symbolic_expressions[xk0[1]]
+        P.append(("expression.offset->0", setattr_(e0, "offset", 0)))
+        if isinstance(e0, g.SymAddrAddr):
+            P.append(("expression.scale->0", setattr_(e0, "scale", 0)))
+        if e0.attributes:
+            P.append(("expression.attributes->empty", lambda: e0.attributes.clear()))
+        za = g.SymbolicExpression.Attribute(0) if 0 in [a.value for a in g.SymbolicExpression.Attribute] else 0
+        if za not in e0.attributes:
+            P.append(("expression.zero-attribute-added", lambda: e0.attributes.add(za)))
+        if xk0[1] != 0 and 0 not in xk0[0].symbolic_expressions:
+            P.append(("interval.expression-moved-to-0", lambda: xk0[0].symbolic_expressions.__setitem__(0, xk0[0].symbolic_expressions.pop(xk0[1]))))
     m = pick(mods)
     if m is not None:
         P.append(("ir.module-removed", lambda: ir.modules.remove(m)))
